@@ -20,6 +20,8 @@ struct App;
 #[derive(Serialize, Deserialize, Debug, Clone, PartialEq, Eq)]
 enum Event {
     Go(u8),
+    /// a stack of `n` marker middlewares (no redirects)
+    Stack(u8),
     Done(crux_http::Result<crux_http::Response<Vec<u8>>>),
 }
 
@@ -42,6 +44,13 @@ impl crux_core::App for App {
 
     fn update(&self, event: Event, model: &mut Model, caps: &Capabilities) -> Command<Effect, Event> {
         match event {
+            Event::Stack(n) => {
+                let mut b = caps.http.post("http://h/0").body_bytes([1u8, 2, 3]);
+                for i in 0..n {
+                    b = b.middleware(Mark(i));
+                }
+                b.send(Event::Done);
+            }
             Event::Go(limit) => {
                 caps.http.post("http://h/0").body_bytes([1u8, 2, 3]).middleware(Redirect::new(limit)).send(Event::Done);
             }
@@ -54,6 +63,49 @@ impl crux_core::App for App {
     fn view(&self, model: &Model) -> String {
         model.outcome.clone()
     }
+}
+
+static LOG: std::sync::Mutex<Vec<String>> = std::sync::Mutex::new(Vec::new());
+
+/// a middleware that marks when it is entered and left
+struct Mark(u8);
+
+#[async_trait::async_trait]
+impl crux_http::middleware::Middleware for Mark {
+    async fn handle(&self, req: crux_http::Request, client: crux_http::client::Client, next: crux_http::middleware::Next<'_>) -> crux_http::Result<crux_http::ResponseAsync> {
+        LOG.lock().unwrap().push(format!("{}<", self.0));
+        let r = next.run(req, client).await;
+        LOG.lock().unwrap().push(format!("{}>", self.0));
+        r
+    }
+}
+
+/// per-request middleware wraps in the order it was attached; the shell is reached exactly once
+fn real_stack(n: u8) -> String {
+    LOG.lock().unwrap().clear();
+    let r = std::panic::catch_unwind(|| {
+        let core: crux_core::Core<App> = crux_core::Core::new();
+        let mut pending = core.process_event(Event::Stack(n));
+        let mut shell = 0;
+        while let Some(Effect::Http(mut req)) = pending.pop() {
+            shell += 1;
+            LOG.lock().unwrap().push("shell".to_string());
+            let more = core.resolve(&mut req, HttpResult::Ok(HttpResponse::status(200).build())).expect("resolves");
+            pending.extend(more);
+            if shell > 5 {
+                break;
+            }
+        }
+        format!("{}->{}", LOG.lock().unwrap().join(","), core.view())
+    });
+    r.unwrap_or_else(|_| "PANIC".to_string())
+}
+
+fn expected_stack(n: u8) -> String {
+    let mut v: Vec<String> = (0..n).map(|i| format!("{i}<")).collect();
+    v.push("shell".to_string());
+    v.extend((0..n).rev().map(|i| format!("{i}>")));
+    format!("{}->ok200", v.join(","))
 }
 
 #[derive(Clone, Copy)]
@@ -151,6 +203,9 @@ fn main() {
         ("err", vec![R(1), E]),
         ("err0", vec![E]),
     ];
+    for n in 0u8..=3 {
+        println!("stack-{n} REAL {} | EXPECT {}", real_stack(n), expected_stack(n));
+    }
     for (name, g) in &graphs {
         for limit in 0u8..=4 {
             println!("{name}-{limit} REAL {} | EXPECT {}", real(limit, g), expected(limit, g));
